@@ -63,11 +63,24 @@ pub(crate) fn format(src: &str, path: &Path) -> String {
     // Phase 4: Apply span edits first (single-line block spacing)
     let src_after_spans = apply_span_edits(src, &mut visitor.span_edits);
 
-    // Phase 5: Apply indentation edits
-    let src_after_indent = apply_indentation_edits(&src_after_spans, &visitor.line_edits);
+    // Phase 5: Apply indentation edits. A line that starts inside a
+    // string literal must be left alone, because its leading
+    // whitespace is part of the string.
+    let string_lines = lines_starting_inside_strings(&src_after_spans, &vfs_path);
+    let line_edits: Vec<LineEdit> = visitor
+        .line_edits
+        .into_iter()
+        .filter(|edit| !string_lines.contains(&edit.line_number))
+        .collect();
+    let src_after_indent = apply_indentation_edits(&src_after_spans, &line_edits);
 
     // Phase 6: Normalize blank lines
-    let src_after_blanks = normalize_blank_lines(&src_after_indent, &visitor.toplevel_start_lines);
+    let string_lines = lines_starting_inside_strings(&src_after_indent, &vfs_path);
+    let src_after_blanks = normalize_blank_lines(
+        &src_after_indent,
+        &visitor.toplevel_start_lines,
+        &string_lines,
+    );
 
     // Phase 7: Fix type annotation spacing
     let src_after_types = fix_type_annotation_spacing(&src_after_blanks, &vfs_path);
@@ -694,6 +707,27 @@ fn collect_comment_edits(
 }
 
 /// Apply indentation edits to the source while preserving blank lines.
+/// The numbers of the lines that begin inside a multi-line string
+/// literal.
+fn lines_starting_inside_strings(
+    src: &str,
+    vfs_path: &crate::parser::vfs::VfsPathBuf,
+) -> FxHashSet<usize> {
+    let mut lines = FxHashSet::default();
+
+    let (mut tokens, _errors) = lex_between(vfs_path, src, 0, src.len());
+    while let Some(token) = tokens.pop() {
+        if token.text.starts_with('"') {
+            let newlines = token.text.matches('\n').count();
+            for i in 1..=newlines {
+                lines.insert(token.position.line_number + i);
+            }
+        }
+    }
+
+    lines
+}
+
 fn apply_indentation_edits(src: &str, line_edits: &[LineEdit]) -> String {
     let lines: Vec<&str> = src.lines().collect();
     let mut result = String::with_capacity(src.len());
@@ -761,7 +795,14 @@ fn apply_span_edits(src: &str, span_edits: &mut [SpanEdit]) -> String {
 ///
 /// - Before non-import toplevel definitions: exactly one blank line
 /// - Inside blocks: at most one blank line between lines
-fn normalize_blank_lines(src: &str, toplevel_start_lines: &[usize]) -> String {
+/// `string_lines` are the lines that start inside a string literal:
+/// blank lines there are part of the string, so they are neither
+/// collapsed nor inserted.
+fn normalize_blank_lines(
+    src: &str,
+    toplevel_start_lines: &[usize],
+    string_lines: &FxHashSet<usize>,
+) -> String {
     let lines: Vec<&str> = src.lines().collect();
     if lines.is_empty() {
         return src.to_owned();
@@ -775,9 +816,9 @@ fn normalize_blank_lines(src: &str, toplevel_start_lines: &[usize]) -> String {
         let line = lines[i];
 
         // If this line is blank
-        if line.trim().is_empty() {
+        if line.trim().is_empty() && !string_lines.contains(&i) {
             // Count consecutive blank lines
-            while i < lines.len() && lines[i].trim().is_empty() {
+            while i < lines.len() && lines[i].trim().is_empty() && !string_lines.contains(&i) {
                 i += 1;
             }
 
@@ -801,6 +842,7 @@ fn normalize_blank_lines(src: &str, toplevel_start_lines: &[usize]) -> String {
         if i < lines.len()
             && !lines[i].trim().is_empty()
             && toplevel_lines.contains(&i)
+            && !string_lines.contains(&i)
             && !line.trim_start().starts_with("//")
         {
             // Next non-blank line is a toplevel definition, but there's no blank line
